@@ -31,6 +31,11 @@ def main():
     try:
         rc, out = sh('git -C %s worktree add -q --detach %s HEAD' % (REPO, wt))
         assert rc == 0, out
+        # the git-ignored PLY table file, as the authors of the seeded changes had it in their clones (parsers start without PLY's
+        # table-construction warnings, which some demos' child-process protocols trip over)
+        tab = os.path.join(REPO, 'hotxlfp', 'grammarparser', 'parser_FormulaParser_parsetab.py')
+        if os.path.exists(tab):
+            shutil.copy(tab, os.path.join(wt, 'hotxlfp', 'grammarparser', 'parser_FormulaParser_parsetab.py'))
         rc, out = sh('/venv/bin/python %s %s' % (demo, wt))
         res['demo_clean_rc'] = rc
         rc, out = sh('git apply %s' % patch, cwd=wt)
